@@ -568,23 +568,20 @@ func (x *runner) fnOps(n int) {
 	}
 }
 
-// referenceTree renders, for an archive without hard links, what the
+// referenceTree renders what the
 // independent extraction created, in the format of the Lean reference
 // `extract` ("none" when the archive is outside its class: a member placed
 // through a link, a parent that is not a directory, any repetition other than
 // file over file and directory over an existing name).
 func referenceTree(ms []member, t *otree) (string, bool) {
 	for _, m := range ms {
-		if m.Kind == 'l' {
-			return "", false
-		}
 		for _, s := range []string{m.Name, m.Link} {
 			if strings.ContainsRune(s, utf8.RuneError) || strings.Contains(s, "\\") {
 				return "", false
 			}
 		}
 	}
-	if len(t.flags.nonWF) > 0 || t.flags.throughLink {
+	if len(t.flags.nonWF) > 0 || t.flags.throughLink || t.flags.hardNotPlain {
 		return "none", true
 	}
 	for _, o := range t.flags.otherRep {
@@ -609,6 +606,12 @@ func referenceTree(ms []member, t *otree) (string, bool) {
 			items = append(items, hx.Hex([]byte(w.path))+":s:"+hx.Hex([]byte(tgt)))
 		case 'x':
 			items = append(items, hx.Hex([]byte(w.path))+":x")
+		case 'h':
+			tgt := escName(strings.Join(lexClean(w.node.target), "/"))
+			if tgt == "" {
+				tgt = "."
+			}
+			items = append(items, hx.Hex([]byte(w.path))+":h:"+hx.Hex([]byte(tgt)))
 		default:
 			return "", false
 		}
